@@ -124,16 +124,16 @@ def sp_smooth_ends(w, X, O):
             ('one-above-given-ordered-differences', z3.Implies(z3.And(z3.fpGEQ(x, e1), ordered), ident(O.fp, K(1, w))))]
 def sp_smooth_formula(w, X, O):
     e0, e1, x = [F(v) for v in X]; t = g_clamp(z3.fpDiv(RNE, z3.fpSub(RNE, x, e0), z3.fpSub(RNE, e1, e0)), K(0, w), K(1, w))       # GLSL: t = clamp((x-edge0)/(edge1-edge0), 0, 1); t*t*(3-2*t)
-    return [('formula', ident(O.fp, z3.fpMul(RNE, z3.fpMul(RNE, t, t), z3.fpSub(RNE, K(3, w), z3.fpMul(RNE, K(2, w), t)))))]
+    return [('formula', z3.simplify(ident(O.fp, z3.fpMul(RNE, z3.fpMul(RNE, t, t), z3.fpSub(RNE, K(3, w), z3.fpMul(RNE, K(2, w), t))))))]
 def sp_smooth_range(w, X, O): return [('ge-zero', z3.fpGEQ(O.fp, K(0, w))), ('le-one', z3.fpLEQ(O.fp, K(1, w)))]
 def mix_formula(x, y, a, w): return z3.fpAdd(RNE, z3.fpMul(RNE, x, z3.fpSub(RNE, K(1, w), a)), z3.fpMul(RNE, y, a))     # GLSL: x*(1-a) + y*a
 def sp_mix(w, X, O):
     x, y, a = [F(v) for v in X]
-    return [('formula', ident(O.fp, mix_formula(x, y, a, w))),
+    return [('formula', z3.simplify(ident(O.fp, mix_formula(x, y, a, w)))),     # simplify: one canonical operand order of the commutative fp.add/fp.mul on both sides
             ('end-a-zero', z3.Implies(z3.And(fin(x, y), z3.fpEQ(a, K(0, w))), z3.fpEQ(O.fp, x))), ('end-a-one', z3.Implies(z3.And(fin(x, y), z3.fpEQ(a, K(1, w))), z3.fpEQ(O.fp, y)))]
 def sp_mixb(w, X, O): return [('select', same_float(O, z3.If(X[2] == 1, X[1], X[0])))]
 def mod_formula(x, y): return z3.fpSub(RNE, x, z3.fpMul(RNE, y, rti(RTN, z3.fpDiv(RNE, x, y))))                            # GLSL: x - y*floor(x/y)
-def sp_mod(w, X, O): return [('formula', ident(O.fp, mod_formula(F(X[0]), F(X[1]))))]
+def sp_mod(w, X, O): return [('formula', z3.simplify(ident(O.fp, mod_formula(F(X[0]), F(X[1])))))]
 def sp_mod_one(w, X, O):
     x = F(X[0]); return [('mod-by-one-is-fract', z3.Implies(fin(x), valeq(O.fp, z3.fpSub(RNE, x, rti(RTN, x)))))]
 def uf2(name, w): return z3.Function('%s%d' % (name, w), FSORT[w], FSORT[w], FSORT[w])
